@@ -10,7 +10,14 @@ use std::mem::MaybeUninit;
 use std::ptr;
 use std::slice;
 
+#[cfg(not(gufo_snmp_verif))]
 const MAX_SIZE: usize = 4080; // 4096 - other fields
+// Verification builds (--cfg gufo_snmp_verif) use a smaller buffer to keep
+// model checking tractable: all the code below is parametric in MAX_SIZE.
+#[cfg(all(gufo_snmp_verif, not(gufo_snmp_verif_buf320)))]
+const MAX_SIZE: usize = 160;
+#[cfg(all(gufo_snmp_verif, gufo_snmp_verif_buf320))]
+const MAX_SIZE: usize = 320;
 
 // SNMP message is build starting from the end,
 // So we use stack-like buffer.
